@@ -23,6 +23,9 @@ class FakeTransport(asyncio.Transport):
         self.inbox = []        # bytes from the peer not yet delivered (reading paused)
         self.delivered = 0     # number of feed() chunks handed to data_received so far
         self.nwritten = 0      # number of write() calls so far
+        # everything that crossed the wire, in its true order: ('w', bytes) written by the session,
+        # ('r', bytes) handed to data_received, ('lost',) connection_lost delivered
+        self.log = []
 
     def get_extra_info(self, name, default=None):
         return ('1.2.3.4', 5) if name == 'peername' else default
@@ -30,10 +33,12 @@ class FakeTransport(asyncio.Transport):
     def write(self, data):
         self.nwritten += 1
         self.out.append(bytes(data))
+        self.log.append(('w', bytes(data)))
 
     def _deliver_lost(self):
         if not self.lost:
             self.lost = True
+            self.log.append(('lost',))
             self.proto.connection_lost(None)
 
     def _lost(self):
@@ -62,7 +67,9 @@ class FakeTransport(asyncio.Transport):
     def _flush_inbox(self):
         while self.inbox and self.reading and not self.lost:
             self.delivered += 1
-            self.proto.data_received(self.inbox.pop(0))
+            data = self.inbox.pop(0)
+            self.log.append(('r', data))
+            self.proto.data_received(data)
 
     # ---- what the harness (playing the event loop / the peer) does
     def feed(self, data):
